@@ -35,3 +35,8 @@
 (define-fun keepE ((d Slice_Any) (x Any)) Bool (not (containsS d x)))
 (define-fun-rec exclLen ((d Slice_Any) (c Slice_Any) (i Int)) Int
   (ite (<= i 0) 0 (+ (exclLen d c (- i 1)) (ite (keepE d (select (arr_Any c) (- i 1))) 1 0))))
+; a path is the left fold of its steps (ExpressionSequence): result after the first i steps
+(define-fun-rec seqRes ((es Slice_Any) (K Int) (N Time) (c Slice_Any) (i Int)) Slice_Any
+  (ite (<= i 0) c (evalRes (select (arr_Any es) (- i 1)) K N (seqRes es K N c (- i 1)))))
+(define-fun-rec seqOk ((es Slice_Any) (K Int) (N Time) (c Slice_Any) (i Int)) Bool
+  (ite (<= i 0) true (and (seqOk es K N c (- i 1)) (= (evalErr (select (arr_Any es) (- i 1)) K N (seqRes es K N c (- i 1))) 0))))
